@@ -278,6 +278,13 @@ def main(pid, tier, seed):
         if v[0] != 'ACCEPT':
             m = meta[t['tid']]
             verdict.violation(dict(m, clause=v[2]), 'clause %s; %s' % (v[2], core.short(m, 300)))
+    def corrupt(t):
+        if t['kind'] == 'walk' and len(t['base']) >= 2:
+            t['chosen'][0] = 1 + (t['chosen'][0] % len(t['base']))      # a different structure than the owner of the draw
+            return t
+        return None
+    accepted = [t for t in wtraces if v1[t['tid']][0] == 'ACCEPT']
+    selftest = core.binding_selftest('TrHoney.tla', accepted, corrupt)
     rc, n_viol, n_known = verdict.finish()
     alltr = wtraces + etraces
     distinct = len({json.dumps({k: v for k, v in t.items() if k != 'tid'}, sort_keys=True) for t in alltr})
@@ -290,7 +297,7 @@ def main(pid, tier, seed):
                    'interval midpoints; honey trace = one real honeyword with scripted in-group choices; run trace = one whole session',
            'rulesets': n_rules, 'walks': sum(1 for t in wtraces if t['kind'] == 'walk'),
            'words': len(etraces), 'runs': sum(1 for t in wtraces if t['kind'] == 'run'),
-           'trace_validation': {'TrHoney': st1, 'TrExpand': st2}, 'exhaustive': False,
+           'trace_validation': {'TrHoney': st1, 'TrExpand': st2}, 'exhaustive': False, 'binding_selftest': selftest,
            'known_findings_reproduced': n_known, 'violation_histogram': verdict.histogram()}
     core.write_evidence(pid, tier, seed, 'model_checking', cov, time.time() - t0, violations=n_viol,
                         assumptions=['TLC', 'dyadic probabilities over denominator 16 so that float partial sums are exact and '
